@@ -10,6 +10,18 @@ BASELINE = json.load(open('/root/.vp/BASELINE.json'))['cmd'].replace('--junitxml
 
 # id -> (category, technique, text, note, design_ref)
 TABLE = {
+ 'C07': ('exploration',
+         'bounded exhaustive enumeration of data-RDM stacks over a value alphabet, all groupings (set partitions), common NaN masks and a complete candidate grid on the real noise-ceiling code, judged by a reference pooling / leave-one-group-out model',
+         'All 729 ordered pairs over {0,1,2}^3 (triples, {0,1,2}^6 pairs and generic fills on top) x every set partition of the RDMs into groups x namings x all 22 common NaN masks: no candidate of the complete grid {0,1,2,3}^L (64-4096 candidates, the data RDMs, the pooled RDM and its perturbations) scores above the upper ceiling for cosine / corr / rho-a and the pooled RDM attains it; the lower bound equals the reference leave-one-group-out value (every single entry of the left-out group is perturbed and the prediction must stay bit-identical); lower <= upper for singleton groups incl. the whitened measures; invariance to rescaling (cosine) and shift+rescale (corr) of individual RDMs; cross-validated ceilings for every small set structure of the fold generators under enumerated shuffles.',
+         'reference in mc/ref/c07_ref.py; optimality judged for singleton groups; whitened measures only for the ordering (as the statement says)', '4/C07'),
+ 'C08': ('exploration',
+         'bounded exhaustive enumeration of bootstrap index vectors (every multiset), NaN masks, methods, sigma_k, fitters and a finite competitor set, with the optimiser start vectors enumerated through the choice-point explorer, judged by the reference score',
+         'Basis sets of 2-3 RDMs, n_cond 4-5, training stacks of 1-3, every bootstrap index vector with >= 3 distinct values and <= 2 deviations (thorough: all 256), common NaN masks, 4 methods x sigma_k None/SPD, normalise on/off, all fitters (fit_regress, _nn, fit_optimize, _positive, fit_select, fit_interpolate, Model.fit): score(theta_hat) >= score of every competitor (all sign vectors in {-1,0,1}^k, the closed-form / brute-force NNLS optimum, local steps, a 21-point grid per adjacent pair, every candidate) within 1e-7 (closed form) / 1e-4 (search based); constraints hold; theta_hat bit-identical when entries of unselected conditions are perturbed; predict == predict_rdm, linear in theta, descriptors carried, dict round trip - for all model classes. Every start vector of a 3-entry menu must reach the optimum (numpy.random.rand intercepted).',
+         'reference in mc/ref/c08_ref.py and mc/ref/measures.py; a fit is posed only when the distinct selected pairs outnumber the basis RDMs; continuous start vectors through a finite menu', '4/C08'),
+ 'C18': ('model_checking',
+         'stateless choice-point exploration of every combination of the library\'s numpy.random.uniform draws (finite menu, prefix replay) over all point configurations on an integer grid, judged by the generating model\'s RDM',
+         'Model RDMs from ALL configurations of 2-4 (thorough 5) points on {0,1,2}^d, d <= 2, and all categorical models (every set partition), n_channel - n_cond in {0,1,3}, partitions 1-3, n_sim 1-2, signal 0.5/1/2, condition vector or design matrix, noise covariance None/SPD; every combination of the 2-4 uniform draws from a 3-entry menu (9/27/81 histories): exact-signal, zero-noise data have calc_rdm == signal x model RDM for every draw; make_design lists each condition once per partition; descriptors carry the parameters; same-signal vs fresh-signal decided from the observed draw log; data(s2) - data(0) = sqrt(s2) x E with E independent of s2 (same history replayed with two variances).',
+         'continuous draws represented by a finite menu; 1e-5 relative tolerance for the exact-signal construction', '4/C18'),
  'C06': ('exploration',
          'bounded exhaustive enumeration of evaluation-array shapes, NaN-sample subsets, covariance input forms, dof, test types and ALL model-order permutations on the real Result / inference_util code, judged by scipy t-tests and explicit-loop contrasts',
          'n_model 1-4; evaluation arrays of 2-5 dimensions shaped like the eval_* outputs with axis sizes <= 4; every subset of <= 4 NaN samples; variance inputs scalar / vector / matrix / 3-stack with and without the ceiling rows; all 9 (n_rdm, n_pattern) pairs; dof 1,2,7; test types t-test / bootstrap / ranksum; every permutation of the model order (equivariance of every output); values from complete small alphabets and fixed fills. eval_fixed: SEM and the three p-value families equal scipy ttest_rel / ttest_1samp (one- and two-sided); model_var, diff_var, noise_ceil_var equal the explicit contrasts with the n/(n-1) factor; dual-bootstrap combination within its bounds; p in [0,1]; pairwise matrix symmetric with unit diagonal; p non-increasing in the effect on an 11-point grid; means are NaN-aware; SEM >= 0.',
